@@ -65,7 +65,10 @@ type accAnnotations struct {
 		Field      string
 		Token      string
 		ConfinedTo []string `json:"confined_to"`
-		Why        string
+		// Scoped: the token is held only at the sites inside ConfinedTo; sites of the field elsewhere are
+		// allowed but get no token — they have to be protected by real locks against the token-holding sites
+		Scoped bool
+		Why    string
 	} `json:"tokens"`
 	CtorFuncs []struct {
 		Func    string
@@ -170,17 +173,23 @@ type pkgInfo struct {
 }
 
 type accExtractor struct {
-	repo       string
-	fset       *token.FileSet
-	ann        accAnnotations
-	pkgs       []*pkgInfo
-	tracked    map[*types.TypeName]string // type → display name
-	atomicTy   map[string]bool
-	funcs      map[*types.Func]*funcNode
-	rows       []*accRow
-	unresolved []string
-	usedAnn    map[string]bool
-	nclosure   map[string]int
+	repo         string
+	fset         *token.FileSet
+	ann          accAnnotations
+	pkgs         []*pkgInfo
+	tracked      map[*types.TypeName]string // type → display name
+	atomicTy     map[string]bool
+	funcs        map[*types.Func]*funcNode
+	rows         []*accRow
+	unresolved   []string
+	usedAnn      map[string]bool
+	nclosure     map[string]int
+	methodsNamed map[string][]*funcNode // declared methods by name (interface-call targets)
+	chaEdges     int
+	aliases      map[string]map[string]bool // "Type.field" (pointer-typed field) → tracked fields it may point to
+	aliasWhy     []string
+	ourPkgs      map[*types.Package]*pkgInfo
+	trackedNames map[string]bool
 }
 
 func (x *accExtractor) typeDisplay(tn *types.TypeName) string {
@@ -188,7 +197,7 @@ func (x *accExtractor) typeDisplay(tn *types.TypeName) string {
 		return tn.Name()
 	}
 	for _, p := range x.pkgs {
-		if p.pkg == tn.Pkg() {
+		if p.pkg.Path() == tn.Pkg().Path() {
 			if p.dir == "." {
 				return tn.Name()
 			}
@@ -240,7 +249,8 @@ func isMutexType(t types.Type) (rw bool, ok bool) {
 
 func extractAccesses(repo, root string) error {
 	x := &accExtractor{repo: repo, fset: token.NewFileSet(), tracked: map[*types.TypeName]string{}, atomicTy: map[string]bool{},
-		funcs: map[*types.Func]*funcNode{}, usedAnn: map[string]bool{}, nclosure: map[string]int{}}
+		funcs: map[*types.Func]*funcNode{}, usedAnn: map[string]bool{}, nclosure: map[string]int{},
+		methodsNamed: map[string][]*funcNode{}, aliases: map[string]map[string]bool{}, ourPkgs: map[*types.Package]*pkgInfo{}, trackedNames: map[string]bool{}}
 	ab, err := os.ReadFile(filepath.Join(root, "go", "extract", "accesses", "access_annotations.json"))
 	if err != nil {
 		return err
@@ -251,6 +261,8 @@ func extractAccesses(repo, root string) error {
 	if err := os.Chdir(repo); err != nil { // the source importer resolves module imports relative to cwd
 		return err
 	}
+	// every listed package is type-checked on its own (the source importer supplies the dependencies, incl. its
+	// own instances of the other listed packages): types and packages are therefore matched by path + name
 	imp := importer.ForCompiler(x.fset, "source", nil)
 	for _, dir := range x.ann.Packages {
 		p, err := x.load(dir, imp)
@@ -258,6 +270,7 @@ func extractAccesses(repo, root string) error {
 			return fmt.Errorf("load %s: %v", dir, err)
 		}
 		x.pkgs = append(x.pkgs, p)
+		x.ourPkgs[p.pkg] = p
 	}
 	for _, t := range x.ann.AtomicTypes.Types {
 		x.atomicTy[t] = true
@@ -278,6 +291,7 @@ func extractAccesses(repo, root string) error {
 				return fmt.Errorf("tracked type %s is not a struct", name)
 			}
 			x.tracked[tn] = name
+			x.trackedNames[name] = true
 		}
 	}
 	// function nodes
@@ -293,7 +307,9 @@ func extractAccesses(repo, root string) error {
 					continue
 				}
 				fn := &funcNode{name: x.funcName(p, fd), obj: obj, decl: fd, pkg: p, top: true}
-				fn.propagate = !ast.IsExported(fd.Name.Name) || (fd.Recv != nil && !ast.IsExported(recvTypeName(fd)))
+				// caller-holds propagation only for unexported names: an exported method, even of an unexported type,
+				// can be entered from other packages through an interface
+				fn.propagate = !ast.IsExported(fd.Name.Name)
 				if fd.Name.Name == "init" || fd.Name.Name == "main" {
 					fn.propagate = false
 				}
@@ -304,9 +320,13 @@ func extractAccesses(repo, root string) error {
 					}
 				}
 				x.funcs[obj] = fn
+				if fd.Recv != nil {
+					x.methodsNamed[fd.Name.Name] = append(x.methodsNamed[fd.Name.Name], fn)
+				}
 			}
 		}
 	}
+	x.aliasPrepass()
 	// walk every function body
 	for _, p := range x.pkgs {
 		for _, f := range p.files {
@@ -743,8 +763,17 @@ func (w *walker) trackedStruct(t types.Type) (string, bool) {
 	if n == nil {
 		return "", false
 	}
-	name, ok := w.x.tracked[n.Obj()]
-	return name, ok
+	if name, ok := w.x.tracked[n.Obj()]; ok {
+		return name, true
+	}
+	if n.Obj().Pkg() == nil {
+		return "", false
+	}
+	d := w.x.typeDisplay(n.Obj())
+	if w.x.trackedNames[d] {
+		return d, true
+	}
+	return "", false
 }
 
 func (w *walker) isAtomicNamed(t types.Type) bool {
@@ -780,6 +809,13 @@ func (w *walker) selector(e *ast.SelectorExpr, ls *lockset, mode amode, atomic b
 		f := st.Field(k)
 		owner, tracked := w.trackedStruct(t)
 		last := i == len(idx)-1
+		if n := namedOf(t); n != nil && len(w.x.aliases) > 0 {
+			// a pointer-typed field known to hold the address of a tracked field: any mention may go
+			// through the pointer and mutate the target (conservative: a write of every possible target)
+			for target := range w.x.aliases[w.x.typeDisplay(n.Obj())+"."+f.Name()] {
+				w.record(target, e, e.X, true, false, ls)
+			}
+		}
 		if tracked {
 			fm, fa := mode, atomic
 			if !last {
@@ -846,7 +882,9 @@ func derefStruct(t types.Type) (*types.Struct, bool) {
 func (w *walker) expr(e ast.Expr, ls *lockset, mode amode) {
 	switch e := e.(type) {
 	case nil:
-	case *ast.Ident, *ast.BasicLit:
+	case *ast.BasicLit:
+	case *ast.Ident:
+		w.global(e, ls, mode)
 	case *ast.ParenExpr:
 		w.expr(e.X, ls, mode)
 	case *ast.SelectorExpr:
@@ -1214,6 +1252,28 @@ func (w *walker) call(c *ast.CallExpr, ls *lockset, kind string) {
 		}
 		w.closure(fl, cls)
 	}
+	// interface method call: every declared method of that name whose receiver type implements the
+	// interface may be the callee (class-hierarchy approximation) and gets a call edge with this lockset
+	if fn == nil && callee != nil && recv != nil {
+		if rt := w.p.info.TypeOf(recv); rt != nil {
+			if iface, isIface := rt.Underlying().(*types.Interface); isIface {
+				for _, cand := range w.x.methodsNamed[callee.Name()] {
+					rtype := cand.obj.Type().(*types.Signature).Recv().Type()
+					if types.Implements(rtype, iface) || types.Implements(types.NewPointer(rtype), iface) {
+						w.x.chaEdges++
+						switch kind {
+						case "go":
+							cand.edges = append(cand.edges, callEdge{caller: w.fn, ls: newLS(true), spawn: true})
+						case "defer":
+							cand.edges = append(cand.edges, callEdge{caller: w.fn, ls: w.deferredLS(ls)})
+						default:
+							cand.edges = append(cand.edges, callEdge{caller: w.fn, ls: ls.clone()})
+						}
+					}
+				}
+			}
+		}
+	}
 	// call edge
 	if fn != nil {
 		switch kind {
@@ -1276,6 +1336,21 @@ func (w *walker) noteFuncValue(e ast.Expr) {
 // ---------------------------------------------------------------------------------------------
 // caller-holds propagation
 
+// eff: entry lockset ∪ func_holds annotation
+func (fn *funcNode) eff() map[string]lmode {
+	if len(fn.extra) == 0 {
+		return fn.entry
+	}
+	r := map[string]lmode{}
+	for k, v := range fn.entry {
+		r[k] = v
+	}
+	for _, h := range fn.extra {
+		r[h] = lExcl
+	}
+	return r
+}
+
 func evalLS(ls *lockset, entry map[string]lmode) map[string]lmode {
 	r := map[string]lmode{}
 	if !ls.fresh {
@@ -1334,7 +1409,7 @@ func (x *accExtractor) fixpoint() {
 				if e.caller.top && !e.ls.fresh {
 					continue // ⊤ caller: no constraint yet
 				}
-				v := evalLS(e.ls, e.caller.entry)
+				v := evalLS(e.ls, e.caller.eff())
 				if first {
 					acc, first = v, false
 					continue
@@ -1381,18 +1456,27 @@ func sameLS(a, b map[string]lmode) bool {
 
 func (x *accExtractor) resolveRows() {
 	for _, r := range x.rows {
-		held := evalLS(r.ls, r.owner.entry)
-		for _, h := range r.owner.extra {
-			if !r.ls.fresh {
-				held[h] = lExcl
-			}
-		}
+		held := evalLS(r.ls, r.owner.eff())
 		// tokens
 		for _, t := range x.ann.Tokens {
-			if globMatch(t.Field, r.Field) {
-				held[t.Token] = lExcl
-				x.usedAnn["token "+t.Field] = true
+			if !globMatch(t.Field, r.Field) {
+				continue
 			}
+			if t.Scoped {
+				base := r.Func
+				if i := strings.Index(base, "$"); i >= 0 {
+					base = base[:i]
+				}
+				in := false
+				for _, c := range t.ConfinedTo {
+					in = in || globMatch(c, base)
+				}
+				if !in || (r.ls.fresh && base != r.Func) { // not in scope; goroutine closures never are
+					continue
+				}
+			}
+			held[t.Token] = lExcl
+			x.usedAnn["token "+t.Field] = true
 		}
 		for _, cf := range x.ann.CtorFuncs {
 			if r.Func == cf.Func && !r.ls.fresh {
@@ -1440,6 +1524,9 @@ func (x *accExtractor) emit(root string) error {
 	// token confinement: every published access of a token-protected field must sit in a listed function
 	var confinement []string
 	for _, t := range x.ann.Tokens {
+		if t.Scoped {
+			continue
+		}
 		for _, r := range x.rows {
 			if !globMatch(t.Field, r.Field) || r.Phase == "ctor" {
 				continue
@@ -1525,7 +1612,7 @@ func (x *accExtractor) emit(root string) error {
 		}
 	}
 	var sb strings.Builder
-	sb.WriteString("/-\nGen/Accesses.lean — GENERATED by go/extract/accesses.go from the working tree of kafka-go. DO NOT EDIT.\n")
+	sb.WriteString("/-\nGen/Accesses.lean — GENERATED by go/extract/accesses/accesses.go from the working tree of kafka-go. DO NOT EDIT.\n")
 	sb.WriteString("The lock-set access table of the goroutine-safe types (C10), grouped by field.\n-/\nimport KafkaVerif.Model.Lockset\n\nnamespace KV.Gen\nopen KV.Lockset\n\n")
 	render := func(r *accRow) string {
 		var hs []string
@@ -1597,6 +1684,14 @@ func (x *accExtractor) emit(root string) error {
 	}
 	sort.Strings(used)
 	lst("annotationsUsed", used)
+	var al []string
+	for k, v := range x.aliases {
+		for t := range v {
+			al = append(al, k+" -> "+t)
+		}
+	}
+	sort.Strings(al)
+	lst("pointerAliases", al)
 	sb.WriteString("end KV.Gen\n")
 	if err := os.WriteFile(filepath.Join(root, "lean", "KafkaVerif", "Gen", "Accesses.lean"), []byte(sb.String()), 0o644); err != nil {
 		return err
@@ -1617,6 +1712,8 @@ func (x *accExtractor) emit(root string) error {
 		Fields      int                 `json:"fields"`
 		Locks       []string            `json:"locks"`
 		Exported    []string            `json:"exported_methods"`
+		Aliases     []string            `json:"pointer_aliases"`
+		CHAEdges    int                 `json:"interface_call_edges"`
 	}{Rows: rows, Excluded: excluded, Unresolved: x.unresolved, Confinement: confinement, Used: used, Entry: map[string][]string{}, Fields: len(fields), Locks: locks}
 	for _, p := range racy {
 		out.Racy = append(out.Racy, jpair{p.A.Field, p.A, p.B})
@@ -1647,6 +1744,8 @@ func (x *accExtractor) emit(root string) error {
 		}
 	}
 	sort.Strings(out.Exported)
+	sort.Strings(x.aliasWhy)
+	out.Aliases, out.CHAEdges = x.aliasWhy, x.chaEdges
 	jb, _ := json.MarshalIndent(out, "", " ")
 	os.MkdirAll(filepath.Join(root, ".build", "c10"), 0o755)
 	if err := os.WriteFile(filepath.Join(root, ".build", "c10", "accesses.json"), jb, 0o644); err != nil {
@@ -1655,4 +1754,194 @@ func (x *accExtractor) emit(root string) error {
 	fmt.Printf("accesses: %d rows, %d fields, %d locks, %d unprotected pairs, %d excluded rows, %d unresolved lock ops, %d confinement breaks\n",
 		len(rows), len(fields), len(locks), len(racy), len(excluded), len(x.unresolved), len(confinement))
 	return nil
+}
+
+// global records an access to a package-level variable of one of the analysed packages
+// (field id "global:<pkgdir>.<name>"); inside init() it is construction phase.
+func (w *walker) global(id *ast.Ident, ls *lockset, mode amode) {
+	v, ok := w.p.info.Uses[id].(*types.Var)
+	if !ok || v.IsField() || v.Pkg() == nil || v.Parent() != v.Pkg().Scope() {
+		return
+	}
+	p := w.x.ourPkgs[v.Pkg()]
+	if p == nil {
+		return
+	}
+	name := "global:" + v.Name()
+	if p.dir != "." {
+		name = "global:" + p.dir + "." + v.Name()
+	}
+	atomic := w.isAtomicNamed(v.Type())
+	write := mode == mWrite
+	if mode == mAddr {
+		if _, tr := w.trackedStruct(v.Type()); tr {
+			return
+		}
+		write = true
+	}
+	pos := w.x.fset.Position(id.Pos())
+	rel, _ := filepath.Rel(w.x.repo, pos.Filename)
+	phase := "published"
+	if w.fn != nil && w.fn.decl != nil && w.fn.decl.Recv == nil && w.fn.decl.Name.Name == "init" && !ls.fresh {
+		phase = "ctor"
+	}
+	w.x.rows = append(w.x.rows, &accRow{Field: name, Write: write, Atomic: atomic, Phase: phase, File: rel, Line: pos.Line,
+		Func: w.fname, ls: ls.clone(), owner: w.fn})
+}
+
+// aliasPrepass follows the address of a tracked field of an untracked, non-sync type (`&c.rbuf`) that is
+// passed to a package-local function into the struct fields it is stored in (composite literal `g: p`,
+// assignment `y.g = p`) — transitively through further calls that pass the parameter on.  Result:
+// x.aliases["readerStack.reader"] = {"Conn.rbuf"}.  Purely syntactic + go/types; flows through returned
+// values, maps, slices, channels or interfaces are NOT followed.
+func (x *accExtractor) aliasPrepass() {
+	type flow struct {
+		fn    *funcNode
+		idx   int
+		field string
+	}
+	var work []flow
+	seen := map[string]bool{}
+	push := func(f flow) {
+		k := fmt.Sprintf("%s#%d#%s", f.fn.name, f.idx, f.field)
+		if !seen[k] {
+			seen[k] = true
+			work = append(work, f)
+		}
+	}
+	staticCallee := func(p *pkgInfo, c *ast.CallExpr) *funcNode {
+		switch f := c.Fun.(type) {
+		case *ast.Ident:
+			if o, ok := p.info.Uses[f].(*types.Func); ok {
+				return x.funcs[o]
+			}
+		case *ast.SelectorExpr:
+			if sel := p.info.Selections[f]; sel != nil {
+				if sel.Kind() == types.MethodVal {
+					if o, ok := sel.Obj().(*types.Func); ok {
+						return x.funcs[o]
+					}
+				}
+				return nil
+			}
+			if o, ok := p.info.Uses[f.Sel].(*types.Func); ok {
+				return x.funcs[o]
+			}
+		}
+		return nil
+	}
+	// seeds: f(..., &x.fld, ...)
+	for _, p := range x.pkgs {
+		w := &walker{x: x, p: p}
+		for _, file := range p.files {
+			ast.Inspect(file, func(n ast.Node) bool {
+				c, ok := n.(*ast.CallExpr)
+				if !ok {
+					return true
+				}
+				fn := staticCallee(p, c)
+				if fn == nil {
+					return true
+				}
+				for i, a := range c.Args {
+					u, ok := a.(*ast.UnaryExpr)
+					if !ok || u.Op != token.AND {
+						continue
+					}
+					se, ok := u.X.(*ast.SelectorExpr)
+					if !ok {
+						continue
+					}
+					sel := p.info.Selections[se]
+					if sel == nil || sel.Kind() != types.FieldVal || len(sel.Index()) != 1 {
+						continue
+					}
+					owner, tracked := w.trackedStruct(sel.Recv())
+					if !tracked {
+						continue
+					}
+					ft := sel.Obj().Type()
+					if _, tr := w.trackedStruct(ft); tr || w.isAtomicNamed(ft) {
+						continue
+					}
+					push(flow{fn, i, owner + "." + sel.Obj().Name()})
+				}
+				return true
+			})
+		}
+	}
+	for len(work) > 0 {
+		f := work[0]
+		work = work[1:]
+		var params []*ast.Ident
+		for _, fl := range f.fn.decl.Type.Params.List {
+			if len(fl.Names) == 0 {
+				params = append(params, nil)
+			}
+			params = append(params, fl.Names...)
+		}
+		if f.idx >= len(params) || params[f.idx] == nil {
+			continue
+		}
+		info := f.fn.pkg.info
+		pobj := info.Defs[params[f.idx]]
+		isP := func(e ast.Expr) bool {
+			id, ok := e.(*ast.Ident)
+			return ok && info.Uses[id] == pobj
+		}
+		add := func(t types.Type, field string, pos token.Pos) {
+			n := namedOf(t)
+			if n == nil {
+				return
+			}
+			k := x.typeDisplay(n.Obj()) + "." + field
+			if x.aliases[k] == nil {
+				x.aliases[k] = map[string]bool{}
+			}
+			if !x.aliases[k][f.field] {
+				x.aliases[k][f.field] = true
+				x.aliasWhy = append(x.aliasWhy, fmt.Sprintf("%s may point to %s (stored in %s, %s)", k, f.field, f.fn.name, x.fset.Position(pos)))
+			}
+		}
+		ast.Inspect(f.fn.decl.Body, func(n ast.Node) bool {
+			switch n := n.(type) {
+			case *ast.CompositeLit:
+				for _, el := range n.Elts {
+					if kv, ok := el.(*ast.KeyValueExpr); ok && isP(kv.Value) {
+						if id, ok := kv.Key.(*ast.Ident); ok {
+							if t := info.TypeOf(n); t != nil {
+								add(t, id.Name, kv.Pos())
+							}
+						}
+					}
+				}
+			case *ast.AssignStmt:
+				for i, r := range n.Rhs {
+					if isP(r) && i < len(n.Lhs) {
+						if se, ok := n.Lhs[i].(*ast.SelectorExpr); ok {
+							if sel := info.Selections[se]; sel != nil && sel.Kind() == types.FieldVal {
+								// owner = the struct that declares the field
+								t := sel.Recv()
+								for _, k := range sel.Index()[:len(sel.Index())-1] {
+									if st, ok := derefStruct(t); ok {
+										t = st.Field(k).Type()
+									}
+								}
+								add(t, se.Sel.Name, se.Pos())
+							}
+						}
+					}
+				}
+			case *ast.CallExpr:
+				if callee := staticCallee(f.fn.pkg, n); callee != nil {
+					for i, a := range n.Args {
+						if isP(a) {
+							push(flow{callee, i, f.field})
+						}
+					}
+				}
+			}
+			return true
+		})
+	}
 }
